@@ -64,11 +64,6 @@ func newFlowGraph(info *types.Info, body *ast.BlockStmt) *FlowGraph {
 func (fg *FlowGraph) computeDom() {
 	n := len(fg.G.Blocks)
 	fg.preds = make([][]int, n)
-	for _, b := range fg.G.Blocks {
-		for _, s := range b.Succs {
-			fg.preds[s.Index] = append(fg.preds[s.Index], int(b.Index))
-		}
-	}
 	// reverse postorder from entry
 	order := make([]int, 0, n)
 	seen := make([]bool, n)
@@ -94,6 +89,16 @@ func (fg *FlowGraph) computeDom() {
 	}
 	for i, b := range order {
 		fg.rpoNum[b] = i
+	}
+	// predecessors: only reachable blocks count (go/cfg links the dead
+	// block after a return to the join block)
+	for _, b := range fg.G.Blocks {
+		if fg.rpoNum[b.Index] < 0 {
+			continue
+		}
+		for _, s := range b.Succs {
+			fg.preds[s.Index] = append(fg.preds[s.Index], int(b.Index))
+		}
 	}
 	fg.idom = make([]int, n)
 	for i := range fg.idom {
